@@ -36,7 +36,8 @@
    (OnMounted) | skipped (next candidate) | fallback on the last candidate (PreCopy,
    src.Fetch inside Mount, Close, Mount returns, PostCopy).  Not modelled: the
    ReferencePusher root falling back inside Mount (PreCopy answers SkipNode there and
-   the real Mount fails). *)
+   the real Mount fails).  A mounted root of Copy is tagged after OnMounted
+   ([c_tagmounted], the fix of finding mounted-root-untagged). *)
 From Oras Require Import Base.Prelude.
 Local Open Scope nat_scope.
 
@@ -63,6 +64,8 @@ Record cfg := mkCfg {
   c_mode : mode;
   c_root : node;
   c_mount : bool;       (* the destination is a registry.Mounter and MountFrom is set *)
+  c_tagmounted : bool;  (* prepareCopy wraps OnMounted so that a mounted root is tagged (true for the
+                           current code; false = the code before the fix, kept for the refutation) *)
   c_cached0 : list node (* proxy cache at the start of copyGraph (resolveRoot through a ReferenceFetcher
                            caches the resolved manifest) *)
 }.
@@ -183,8 +186,15 @@ Definition cb_next (g : graph) (c : cfg) (st : state) (k : cbk) (n : node) : opt
          && mount_applies g c st n
       then Some MtRdy else None
   | CPre, MtRdy => Some (Rdy false)
-  | CPre, Mounting => Some MtPre
-  | CMounted, MountedP => Some Done
+  | CPre, Mounting =>
+      (* not modelled as a success path: the root of a ReferencePusher copy (its PreCopy pushes with
+         the reference and answers SkipNode, so the real Mount fails) *)
+      if root_refpush c n then None else Some MtPre
+  | CMounted, MountedP =>
+      (* Copy: the mounted root is then tagged like an already-present root *)
+      Some (if c_tagmounted c
+            then if root_tagger c n then TagP0 true else if root_refpush c n then Rdy true else Done
+            else Done)
   | CPost, PostP => Some Done
   | CSkip, SkipP => Some (if root_tagger c n then TagP0 true else Done)
   | _, _ => None
